@@ -14,7 +14,7 @@ from .. import sp
 ID = "C05"
 META = {
     "technique": "runtime monitoring: round-trip monitor (content equality of two parses, byte equality of two writes) on parse_string/write_string under default stacks x BibtexFormat grid",
-    "level_text": "Each generated well-formed document is parsed, written with a format from the 288-format grid, re-parsed and re-written by the real entry points; the two libraries must project to the same blocks (types, keys, field order, values, comment/preamble/string content) and the two outputs must be byte-identical. Values are compared exactly (white space inside an enclosing is content); 5 % of the braced/quoted values are number-like texts padded with blanks, tabs and line breaks.",
+    "level_text": "Each generated well-formed document is parsed, written with a format from the 288-format grid, re-parsed and re-written by the real entry points; the two libraries must project to the same blocks (types, keys, field order, values, comment/preamble/string content) and the two outputs must be byte-identical. Values are compared exactly (white space inside an enclosing is content); 5 % of the braced/quoted values are number-like texts padded with blanks, tabs and line breaks. Every thirteenth document begins or ends with free text that reads like the writer's own 'parsing failed' warning lines.",
     "level_note": "formats with whitespace-only indent/separator (others change the document by construction); documents satisfy S1-S3 of the dialect (escapes read pairwise; comments may end in an escaped blank); known finding K3: entry types containing U+0130",
 }
 RULE = ("case = (grammar-derived document incl. @string references, BibtexFormat from the grid indent x value_column x trailing_comma x separator); "
